@@ -31,6 +31,9 @@ type JudgeFailure struct {
 	History []string `json:"history,omitempty"`
 	// Signature identifies the failure for known_findings.json (clause + canonical minimal input).
 	Signature string `json:"signature"`
+	// Minimized: for the histories of the upd domain, a shorter history (steps dropped greedily while the
+	// same clause of the same property still fails, then cut after the failing step)
+	Minimized []string `json:"minimized_history,omitempty"`
 }
 
 type Out struct {
